@@ -99,6 +99,10 @@ let line_G inp = Printf.sprintf "HB tag %d" (b2i (M.is_black_tag inp))
 let line_A inp = Printf.sprintf "HB attr %d" (int_of_z (M.is_black_attr inp))
 let line_K inp = Printf.sprintf "KW %d" (int_of_byte (M.search_keyword inp))
 
+(* cost semantics (C09): number of elementary steps of the instrumented model *)
+let line_CX inp = Printf.sprintf "CX %s" (outcome (M.c_is_xss inp) (fun (_, c) -> string_of_int (int_of_z c)))
+let line_CS inp = Printf.sprintf "CS %s" (outcome (M.c_is_sqli inp) (fun (_, c) -> string_of_int (int_of_z c)))
+
 let () =
   let kinds = if Array.length Sys.argv > 1 then Sys.argv.(1) else "TFPVHX" in
   let has c = String.contains kinds c in
@@ -123,6 +127,7 @@ let () =
          if has 'G' then p (line_G inp);
          if has 'A' then p (line_A inp);
          if has 'K' then p (line_K inp);
+         if has 'C' then begin p (line_CX inp); p (line_CS inp) end;
          if Buffer.length out > 60000 then flush ()
        end
      done
